@@ -1,12 +1,17 @@
 """C03 - every consumer is released when its stream ends or it is stopped."""
 from checks import fanout_common as fc
+from checks.c05 import registry_histories
 LEVEL = "model_checking"
 
 
 def run(ck):
     q = ck.quick()
-    fc.run_family(ck, "C03", ["close2", "stopclose1", "stop2"] if q else list(fc.fs.SCENARIOS),
-                  ["C03"], 500 if q else 3000, 0 if q else 6000)
+    fc.run_family(ck, "C03", ["close2", "stopclose1", "flvclose2", "backlogstop1", "replace2"] if q else list(fc.fs.SCENARIOS),
+                  ["C03"], 200 if q else 2000, 600 if q else 20000)
+    # the ways a stream ends at registry level (unregister of a replaced publisher, replacement, admin close, idle
+    # close) and attaching to a stream that has already ended: Registry.tla histories; only what concerns the
+    # release of consumers and the closing of streams is attributed to C03
+    registry_histories(ck, "C03", q, kinds=("consumer-closed", "stream-closed", "count", "panic"), edge_sample=1500)
 
 
 META = {
